@@ -1006,3 +1006,5 @@ M("C13.sum_points_wrapping", ["C13"], "emitter/otlp/src/data/metrics.rs",
   """            NumberDataPointValue::AsInt(AsInt(current)) => {
                 NumberDataPointValue::AsInt(AsInt(current.wrapping_add(value)))
             }""", "C13.R6:point-arithmetic")
+M("C10.sync_parent_outcome_dropped", ["C10"], "emitter/file/src/lib.rs",
+  "        fs.sync_parent(file_path)?;\n", "        let _ = fs.sync_parent(file_path);\n", "C10")
